@@ -29,7 +29,7 @@ func init() {
 
 var profC04 = Profile{
 	MaxBars: 7, MinBars: 1, MaxSteps: 40, Refresh: []string{"manual", "manual", "manual", "manual", "manual", "none"}, QLens: []int{-1},
-	Pop: 35, Queue: 15, Prio: true, PrioOnFinished: true, Ext: 30, Text: 3, Rm: 30, NoPop: 20, AbortW: 2, TicksW: 10,
+	Pop: 35, Queue: 15, LateSuccW: 2, Prio: true, PrioOnFinished: true, Ext: 30, Text: 3, Rm: 30, NoPop: 20, AbortW: 2, TicksW: 10,
 	Pty: 55, PtyRowsMax: 8, Delay: 15, Fillers: []string{"bar", "bartip", "spinner", "spinnerv"}, LateAdd: true, Cancel: 5, PrioMidRender: 10, PlainDecors: 1,
 }
 
@@ -227,8 +227,15 @@ func runC04(ci interface{}) Result {
 			vstat.Note(fmt.Sprintf("frame %d has %d rows, model %d", k, len(barRows), wantRows))
 			return r
 		}
-		if len(barRows) > mf.Height {
-			r.Err, r.Kind = fmt.Errorf("frame %d has %d rows, the height is %d", k, len(barRows), mf.Height), "too-tall"
+		// (rows of bars popped out in this frame are lines meant to persist, like
+		// text: they are not cut, and a frame taller than the height may consist
+		// of nothing else)
+		persistRows := 0
+		for _, b := range mf.Persist {
+			persistRows += mf.Rows[b]
+		}
+		if len(barRows) > mf.Height && len(barRows) > persistRows {
+			r.Err, r.Kind = fmt.Errorf("frame %d has %d rows (%d of them of bars popped out in it), the height is %d", k, len(barRows), persistRows, mf.Height), "too-tall"
 			return r
 		}
 		if wlim := cols; wlim > 0 || sc.Cfg.PtyRows == 0 {
